@@ -1065,3 +1065,99 @@ def pointwise_obligations(prop, tier):
                               tuple(f_(LAWP, f"_Elastic.{q}") for q in ("Calc_Epsilon_e_pg", "Calc_Sigma_e_pg", "Calc_Psi_e_pg")),
                               clause="strain == B u_e, stress == C strain (C homogeneous or a field), energy density == 1/2 stress . strain at every (e, p), for all Ne, nPg", timeout=300))
     return obs
+
+
+# ---------------------------------------------------------------------------------------------- weak forms (C13)
+
+FORMP = "EasyFEA/FEM/_forms.py"
+
+
+class _FieldStub:
+    """a Field as the form integrator sees it: activation of one (node, dof) pair, copy, group, dofs per node, quadrature"""
+
+    def __init__(self, name, group, dof_n, mt, log):
+        self.name, self.groupElem, self.dof_n, self.matrixType, self.log = name, group, dof_n, mt, log
+        self.node = self.dof = None
+
+    def copy(self):
+        c = _FieldStub(self.name + "'", self.groupElem, self.dof_n, self.matrixType, self.log)
+        self.log.append(("copy", self.name))
+        return c
+
+    def _Set_current_active_node(self, n):
+        self.node = int(n)
+
+    def _Set_current_active_dof(self, d):
+        self.dof = int(d)
+
+
+@_guard
+def ob_form_integrate(kind, nPe, dof_n, trailing, canary=False):
+    """BiLinearForm / LinearForm.Integrate_e with an arbitrary user form: the form is called once for every trial x test (node, dof) pair (once per test pair), its value at the
+    generic (e, p) is weighted by wJ of the field's quadrature and summed over p, and the result is stored with the TEST function on the rows"""
+    nd = nPe * dof_n
+    decl = dict(wJ=(NE, NPG))
+    keys = [(a, b) for a in range(nd) for b in (range(nd) if kind == "bilinear" else (0,))]
+    for a, b in keys:
+        decl[f"v{a}_{b}"] = (NE, NPG)
+    sp = gen.Space(decl)
+    g, NPs, Fe = env(sp, "EasyFEA.FEM._forms")
+    g["np"] = type("NPf", (type(NPs),), dict(arange=staticmethod(np.arange)))(sp)
+    log, mts = [], []
+
+    def wJ(mt):
+        mts.append(mt)
+        return sp.fe("wJ")
+    grp = sx.Mock("groupElem", nPe=nPe, Ne=NE, Get_weightedJacobian_e_pg=wJ)
+    fld = _FieldStub("u", grp, dof_n, "the field's quadrature", log)
+    calls = []
+
+    def idx(f):
+        if f.node is None or f.dof is None:
+            raise Refuted("the form is evaluated before a (node, dof) pair is activated", signature="form:activation")
+        return f.node * f.dof_n + f.dof
+
+    def form2(u, v):
+        if u is v:
+            raise Refuted("trial and test field are the same object: activating one would activate the other", signature="form:alias")
+        a, b = idx(u), idx(v)
+        calls.append((a, b))
+        r = sp.fe(f"v{a}_{b}")
+        return GFe._wrap(GA(sp, r.shape, r.data)[:, :, None]) if trailing else r
+
+    def form1(v):
+        a = idx(v)
+        calls.append((a, 0))
+        r = sp.fe(f"v{a}_0")
+        return GFe._wrap(GA(sp, r.shape, r.data)[:, :, None]) if trailing else r
+    cls = "BiLinearForm" if kind == "bilinear" else "LinearForm"
+    me = sx.Mock("self", _form=form2 if kind == "bilinear" else form1)
+    got = fn_of(FORMP, f"{cls}.Integrate_e", g)(me, fld)
+    if sorted(calls) != sorted(keys):
+        raise Refuted(f"{cls}.Integrate_e evaluates the form for {len(calls)} (trial, test) pairs, {len(set(calls))} distinct, expected each of the {len(keys)} pairs once", signature="form:pairs")
+    if mts != ["the field's quadrature"]:
+        raise Refuted(f"the weights are taken for {mts}, not for the quadrature of the field", signature="form:quadrature")
+    w = sp.arr("wJ")
+    if kind == "bilinear":
+        want = sp.full((NE, nd, nd), 0)
+        for a, b in keys:               # a: trial (u), b: test (v)  ->  row b, column a
+            want[:, b, a] = gen.einsum("ep,ep->e", sp.arr(f"v{a}_{b}"), w) * (2 if canary else 1)
+    else:
+        want = sp.full((NE, nd, 1), 0)
+        for a, _ in keys:
+            want[:, a, 0] = gen.einsum("ep,ep->e", sp.arr(f"v{a}_0"), w)
+    check(got, want, f"{cls}.Integrate_e (nPe {nPe}, dof_n {dof_n}): entry [test j, trial i] != sum_p form(u_i, v_j)[e,p] wJ[e,p]", f"form:integrate:{kind}")
+    return Verdict(DISCHARGED, backend=BACKEND, sub=len(keys))
+
+
+def form_obligations(prop, tier):
+    obs = []
+    for kind in ("bilinear", "linear"):
+        for nPe, dof_n in ((2, 1), (3, 1), (3, 2), (4, 2), (4, 3)) + (((6, 2), (8, 3), (10, 3)) if tier == "thorough" else ()):
+            for trailing in (False, True):
+                obs.append(Ob(f"{prop}.gp.form.{kind}.n{nPe}.dof{dof_n}{'.unitaxis' if trailing else ''}", ob_form_integrate, (kind, nPe, dof_n, trailing), "P",
+                              (f_(FORMP, f"{'BiLinearForm' if kind == 'bilinear' else 'LinearForm'}.Integrate_e"),),
+                              clause="an arbitrary form is evaluated once per (trial, test) pair of activated (node, dof), weighted by wJ of the field's quadrature, summed over the integration points "
+                                     "and stored with the test function on the rows; for all Ne, nPg", timeout=300))
+    obs.append(Ob(f"{prop}.gp.canary.form", ob_form_integrate, ("bilinear", 2, 1, False, True), "P", expect=REFUTED, clause="twice the integral must be refuted", timeout=120))
+    return obs
